@@ -1215,8 +1215,10 @@ func (e *acEng) amt(tag string) *big.Int {
 			cls = "full"
 		case x < 75:
 			cls = "tiny"
-		case x < 85:
+		case x < 82:
 			cls = "huge"
+		case x < 85:
+			cls = "pow2"
 		case x < 93:
 			cls = "half"
 		default:
@@ -1249,6 +1251,15 @@ func (e *acEng) amt(tag string) *big.Int {
 	case "huge":
 		v = e.randBelow(pow10(22 + g.Intn(19)))
 		v.Add(v, big.NewInt(1))
+	case "pow2": // whole or raw amounts exactly around 2^63, 2^64, 2^127..2^129, 2^255
+		b := []int{63, 64, 127, 128, 129, 255}[g.Intn(6)]
+		v = new(big.Int).Add(pow2(b), big.NewInt(int64(g.Intn(3)-1)))
+		if g.Intn(3) != 0 {
+			v.Mul(v, acP18)
+			if g.Intn(3) == 0 {
+				v.Add(v, big.NewInt(int64(g.Intn(3)-1)))
+			}
+		}
 	case "half":
 		v = new(big.Int).Mul(big.NewInt(int64(2*g.Intn(6)+1)), new(big.Int).Mul(big.NewInt(5), pow10(17)))
 	case "odd":
